@@ -50,3 +50,288 @@ Fixpoint toIndexPartialPF_go (keys vals space : list nat) (mult acc : nat) : nat
   | _, _ => acc
   end.
 Definition toIndexPartialPF (space keys vals : list nat) : nat := toIndexPartialPF_go keys vals space 1 0.
+
+(* ================================================================================================
+   Part 1b — tag utilities and enumerators (src/Factored/Utils/Core.cpp)
+   ================================================================================================ *)
+
+(* src: Core.hpp:TagErrors *)
+Inductive tagError := TENone | TENoElements | TETooManyElements | TEIdTooHigh | TENotSorted | TEDuplicates.
+
+(* src: Core.cpp:checkTag — the loop over t = 1.. with previousV *)
+Fixpoint checkTag_go (n : nat) (prev : nat) (t : nat) (rest : list nat) : tagError * nat :=
+  match rest with
+  | [] => (TENone, 0)
+  | v :: rest' =>
+      if n <=? v then (TEIdTooHigh, t)
+      else if v <? prev then (TENotSorted, t)
+      else if v =? prev then (TEDuplicates, t)
+      else checkTag_go n v (S t) rest'
+  end.
+Definition checkTag (space tag : list nat) : tagError * nat :=
+  match tag with
+  | [] => (TENoElements, 0)
+  | v0 :: rest =>
+      if length space <? length tag then (TETooManyElements, 0)
+      else if length space <=? v0 then (TEIdTooHigh, 0)
+      else checkTag_go (length space) v0 1 rest
+  end.
+
+(* src: Core.cpp:removeFactor.  The first loop finds the first position i with key >= f; the
+   element is dropped only if that key equals f. *)
+Fixpoint removeFactor_go (keys vals : list nat) (f : nat) : option (list nat * list nat) :=
+  match keys, vals with
+  | k :: ks, v :: vs =>
+      if k <? f then
+        match removeFactor_go ks vs f with
+        | Some (ks', vs') => Some (k :: ks', v :: vs')
+        | None => None
+        end
+      else if k =? f then Some (ks, vs) else None
+  | _, _ => None
+  end.
+Definition removeFactor (keys vals : list nat) (f : nat) : list nat * list nat :=
+  match removeFactor_go keys vals f with Some r => r | None => (keys, vals) end.
+
+(* src: Core.cpp:merge(const PartialKeys &, const PartialKeys &, matches ptr)  — also returns the
+   list of (i, j) position pairs of common keys. *)
+Fixpoint merge_keys_go (fuel : nat) (lhs rhs : list nat) (i j : nat) : list nat * list (nat * nat) :=
+  match fuel with
+  | 0 => ([], [])
+  | S fuel' =>
+    match lhs, rhs with
+    | [], _ => (rhs, [])
+    | _, [] => (lhs, [])
+    | a :: lt, b :: rt =>
+        if a =? b then let '(r, m) := merge_keys_go fuel' lt rt (S i) (S j) in (a :: r, (i, j) :: m)
+        else if a <? b then let '(r, m) := merge_keys_go fuel' lt rhs (S i) j in (a :: r, m)
+        else let '(r, m) := merge_keys_go fuel' lhs rt i (S j) in (b :: r, m)
+    end
+  end.
+Definition merge_keys_matches (lhs rhs : list nat) : list nat * list (nat * nat) :=
+  merge_keys_go (S (length lhs + length rhs)) lhs rhs 0 0.
+Definition merge_keys (lhs rhs : list nat) : list nat := fst (merge_keys_matches lhs rhs).
+
+(* src: Core.cpp:merge(const PartialFactors &, const PartialFactors &)  — on a common key the rhs
+   value is the one pushed.  PartialFactors are lists of (key, value) pairs here. *)
+Fixpoint merge_pf_go (fuel : nat) (lhs rhs : list (nat * nat)) : list (nat * nat) :=
+  match fuel with
+  | 0 => []
+  | S fuel' =>
+    match lhs, rhs with
+    | [], _ => rhs
+    | _, [] => lhs
+    | (a, va) :: lt, (b, vb) :: rt =>
+        if a <? b then (a, va) :: merge_pf_go fuel' lt rhs
+        else (b, vb) :: merge_pf_go fuel' (if a =? b then lt else lhs) rt
+    end
+  end.
+Definition merge_pf (lk lv rk rv : list nat) : list nat * list nat :=
+  let r := merge_pf_go (S (length lk + length rk)) (combine lk lv) (combine rk rv) in
+  (map fst r, map snd r).
+(* src: Core.cpp:merge(const PartialKeys &, const PartialValues &, const PartialKeys &, const PartialValues &) *)
+Definition merge_vals (lk lv rk rv : list nat) : list nat := snd (merge_pf lk lv rk rv).
+
+(* src: Core.cpp:match(const PartialKeys & lhsK, const PartialValues & lhs, const PartialKeys & rhsK,
+   const PartialValues & rhs).  [None] = the loop reads bigger[i] past the end (unchecked in C++). *)
+Fixpoint match_go (fuel : nat) (bk bv sk sv : list nat) : option bool :=
+  match fuel with
+  | 0 => None
+  | S fuel' =>
+    match sk, sv with
+    | [], _ => Some true
+    | s :: skt, vs :: svt =>
+        match bk, bv with
+        | b :: bkt, vb :: bvt =>
+            if b <? s then match_go fuel' bkt bvt sk sv
+            else if s <? b then match_go fuel' bk bv skt svt
+            else if vb =? vs then match_go fuel' bkt bvt skt svt else Some false
+        | _, _ => None
+        end
+    | _ :: _, [] => None
+    end
+  end.
+Definition match_pf (lk lv rk rv : list nat) : option bool :=
+  if length rk <? length lk then match_go (S (length lk + length rk)) lk lv rk rv
+  else match_go (S (length lk + length rk)) rk rv lk lv.
+
+(* src: Core.cpp:match(const Factors & lhs, const PartialFactors & rhs) *)
+Fixpoint match_f_pf (lhs rk rv : list nat) : bool :=
+  match rk, rv with
+  | k :: ks, v :: vs => if nth k lhs 0 =? v then match_f_pf lhs ks vs else false
+  | _, _ => true
+  end.
+(* src: Core.cpp:match(const PartialKeys & keys, const Factors & lhs, const Factors & rhs) *)
+Fixpoint match_keys (keys lhs rhs : list nat) : bool :=
+  match keys with
+  | [] => true
+  | k :: ks => if nth k lhs 0 =? nth k rhs 0 then match_keys ks lhs rhs else false
+  end.
+(* src: Core.cpp:match(const std::vector<std::pair<size_t,size_t>> & matches, lhs, rhs) *)
+Fixpoint match_pairs (ms : list (nat * nat)) (lhs rhs : list nat) : bool :=
+  match ms with
+  | [] => true
+  | (a, b) :: t => if nth a lhs 0 =? nth b rhs 0 then match_pairs t lhs rhs else false
+  end.
+
+(* src: Core.cpp:toIndexPartial(const PartialKeys & ids, const Factors & space, const PartialFactors & pf)
+   "while (pf.first[j] != id) ++j": j only moves forward and stays on the matched key.
+   [None] = ran past the end of pf (unchecked in C++). *)
+Fixpoint seek (id : nat) (pk pv : list nat) : list nat * list nat :=
+  match pk, pv with
+  | k :: ks, v :: vs => if k =? id then (pk, pv) else seek id ks vs
+  | _, _ => ([], [])
+  end.
+Fixpoint toIndexPartialKPF_go (ids space pk pv : list nat) (mult acc : nat) : option nat :=
+  match ids with
+  | [] => Some acc
+  | id :: t =>
+      match seek id pk pv with
+      | (pk', v :: pv') => toIndexPartialKPF_go t space pk' (v :: pv') (mult * nth id space 0) (acc + mult * v)
+      | _ => None
+      end
+  end.
+Definition toIndexPartialKPF (ids space pk pv : list nat) : option nat := toIndexPartialKPF_go ids space pk pv 1 0.
+
+(* src: Core.cpp:toIndex(const Factors & space, const PartialFactors & f) — precondition in C++:
+   f non-empty (reads f.first[0]); positions with no key contribute only to the multiplier. *)
+Fixpoint toIndexPF_go (space : list nat) (i : nat) (pk pv : list nat) (mult acc : nat) : nat :=
+  match space with
+  | [] => acc
+  | sp :: space' =>
+      match pk, pv with
+      | k :: ks, v :: vs =>
+          if i =? k then
+            match ks with
+            | [] => acc + mult * v
+            | _ => toIndexPF_go space' (S i) ks vs (mult * sp) (acc + mult * v)
+            end
+          else toIndexPF_go space' (S i) pk pv (mult * sp) acc
+      | _, _ => acc
+      end
+  end.
+Definition toIndexPF (space pk pv : list nat) : nat := toIndexPF_go space 0 pk pv 1 0.
+
+(* src: Core.cpp:toIndexPartialAndSkip *)
+Fixpoint toIndexPartialAndSkip_go (ids space f : list nat) (toModify mult skipMult acc : nat) : nat * nat :=
+  match ids with
+  | [] => (acc, skipMult)
+  | id :: t =>
+      if id =? toModify
+      then toIndexPartialAndSkip_go t space f toModify (mult * nth id space 0) mult acc
+      else toIndexPartialAndSkip_go t space f toModify (mult * nth id space 0) skipMult (acc + mult * nth id f 0)
+  end.
+Definition toIndexPartialAndSkip (ids space f : list nat) (toModify : nat) : nat * nat :=
+  toIndexPartialAndSkip_go ids space f toModify 1 1 0.
+
+(* ---- PartialFactorsEnumerator ---------------------------------------------------------------- *)
+(* src: Core.hpp:class PartialFactorsEnumerator {F, factors_ = (first, second), factorToSkipId_} *)
+Record pfe := mkPfe { pfeF : list nat; pfeKeys : list nat; pfeVals : list nat; pfeSkip : nat }.
+
+(* src: Core.cpp:PartialFactorsEnumerator(Factors f, PartialKeys factors) *)
+Definition pfe_keys (F keys : list nat) : pfe := mkPfe F keys (repeat 0 (length keys)) (length keys).
+(* src: Core.cpp:PartialFactorsEnumerator(Factors f) *)
+Definition pfe_all (F : list nat) : pfe := pfe_keys F (seq 0 (length F)).
+
+(* first position holding factorToSkip ("Find the skip id" loop) *)
+Fixpoint find_pos (x : nat) (l : list nat) (i : nat) : option nat :=
+  match l with [] => None | y :: t => if x =? y then Some i else find_pos x t (S i) end.
+(* missing-mode loop: copy keys until the first one greater than factorToSkip (or the end), put
+   factorToSkip there (position j is remembered), copy the rest. *)
+Fixpoint insert_missing (factors : list nat) (skip j : nat) : list nat * nat :=
+  match factors with
+  | [] => ([skip], j)
+  | k :: t => if skip <? k then (skip :: factors, j)
+              else let '(l, p) := insert_missing t skip (S j) in (k :: l, p)
+  end.
+(* src: Core.cpp:PartialFactorsEnumerator(Factors f, const PartialKeys & factors, size_t factorToSkip, bool missing)
+   [None]: non-missing mode and factorToSkip not among the keys — factorToSkipId_ stays uninitialised. *)
+Definition pfe_skip (F factors : list nat) (factorToSkip : nat) (missing : bool) : option pfe :=
+  if missing then
+    let '(keys, p) := insert_missing factors factorToSkip 0 in
+    Some (mkPfe F keys (repeat 0 (length keys)) p)
+  else
+    match find_pos factorToSkip factors 0 with
+    | Some p => Some (mkPfe F factors (repeat 0 (length factors)) p)
+    | None => None
+    end.
+(* src: Core.cpp:PartialFactorsEnumerator(Factors f, size_t factorToSkip) *)
+Definition pfe_skip_all (F : list nat) (factorToSkip : nat) : pfe :=
+  mkPfe F (seq 0 (length F)) (repeat 0 (length F)) factorToSkip.
+
+(* src: Core.cpp:PartialFactorsEnumerator::advance.  The loop visits positions in increasing order,
+   never touching position factorToSkipId_ ("id = !factorToSkipId_", "if (++id == factorToSkipId_) ++id");
+   [keys]/[vals] are the suffixes from position [pos] on.  [None] = ran past the end (clear()). *)
+Fixpoint advance_go (F : list nat) (skipId pos : nat) (keys vals : list nat) : option (list nat) :=
+  match keys, vals with
+  | k :: ks, v :: vs =>
+      if pos =? skipId then
+        match advance_go F skipId (S pos) ks vs with Some r => Some (v :: r) | None => None end
+      else if S v =? nth k F 0 then
+        match advance_go F skipId (S pos) ks vs with Some r => Some (0 :: r) | None => None end
+      else Some (S v :: vs)
+  | _, _ => None
+  end.
+Definition pfe_advance (e : pfe) : pfe :=
+  match advance_go (pfeF e) (pfeSkip e) 0 (pfeKeys e) (pfeVals e) with
+  | Some v => mkPfe (pfeF e) (pfeKeys e) v (pfeSkip e)
+  | None => mkPfe (pfeF e) (pfeKeys e) [] (pfeSkip e)
+  end.
+(* src: Core.cpp:PartialFactorsEnumerator::isValid *)
+Definition pfe_isValid (e : pfe) : bool := match pfeVals e with [] => false | _ => true end.
+(* src: Core.cpp:PartialFactorsEnumerator::reset *)
+Definition pfe_reset (e : pfe) : pfe := mkPfe (pfeF e) (pfeKeys e) (repeat 0 (length (pfeKeys e))) (pfeSkip e).
+(* src: Core.cpp:PartialFactorsEnumerator::size *)
+Fixpoint pfe_size_go (F : list nat) (skipId pos : nat) (keys : list nat) (acc : nat) : nat :=
+  match keys with
+  | [] => acc
+  | k :: ks => if pos =? skipId then pfe_size_go F skipId (S pos) ks acc
+               else pfe_size_go F skipId (S pos) ks (acc * nth k F 0)
+  end.
+Definition pfe_size (e : pfe) : nat :=
+  pfe_size_go (pfeF e) (pfeSkip e) 0 (pfeKeys e) (match pfeKeys e with [] => 0 | _ => 1 end).
+
+(* "for (; e.isValid(); e.advance())" collecting *e; [None] = out of fuel. *)
+Fixpoint pfe_visit (fuel : nat) (e : pfe) : option (list (list nat)) :=
+  match fuel with
+  | 0 => None
+  | S fuel' =>
+      if pfe_isValid e then
+        match pfe_visit fuel' (pfe_advance e) with Some r => Some (pfeVals e :: r) | None => None end
+      else Some []
+  end.
+
+(* ---- PartialIndexEnumerator ------------------------------------------------------------------ *)
+(* src: Core.hpp:class PartialIndexEnumerator {len_, skip_, offset_, curr_, currLen_, max_} *)
+Record pie := mkPie { pieLen : nat; pieSkipN : nat; pieOffset : nat; pieCurr : nat; pieCurrLen : nat; pieMax : nat }.
+
+Fixpoint pie_len_go (F factors : list nat) (fixedFactor len : nat) : nat :=
+  match factors with
+  | [] => len
+  | k :: t => if k <? fixedFactor then pie_len_go F t fixedFactor (len * nth k F 0) else len
+  end.
+(* src: Core.cpp:PartialIndexEnumerator(const Factors & F, const PartialKeys & factors, size_t fixedFactor, size_t val, bool missing) *)
+Definition pie_make (F factors : list nat) (fixedFactor val : nat) (missing : bool) : pie :=
+  let len := pie_len_go F factors fixedFactor 1 in
+  let mx := factorSpacePartial factors F in
+  let mx := if missing then mx * nth fixedFactor F 0 else mx in
+  mkPie (len - 1) (len * nth fixedFactor F 0) (len * val) (len * val) 0 mx.
+(* src: Core.cpp:PartialIndexEnumerator(const Factors & F, size_t fixedFactor, size_t val) *)
+Definition pie_make_all (F : list nat) (fixedFactor val : nat) : pie :=
+  let len := factorSpace (firstn fixedFactor F) in
+  mkPie (len - 1) (len * nth fixedFactor F 0) (len * val) (len * val) 0 (factorSpace F).
+(* src: Core.cpp:PartialIndexEnumerator::operator* / advance / isValid *)
+Definition pie_get (e : pie) : nat := pieCurr e + pieCurrLen e.
+Definition pie_advance (e : pie) : pie :=
+  if pieCurrLen e <? pieLen e
+  then mkPie (pieLen e) (pieSkipN e) (pieOffset e) (pieCurr e) (S (pieCurrLen e)) (pieMax e)
+  else mkPie (pieLen e) (pieSkipN e) (pieOffset e) (pieCurr e + pieSkipN e) 0 (pieMax e).
+Definition pie_isValid (e : pie) : bool := pie_get e <? pieMax e.
+Fixpoint pie_visit (fuel : nat) (e : pie) : option (list nat) :=
+  match fuel with
+  | 0 => None
+  | S fuel' =>
+      if pie_isValid e then
+        match pie_visit fuel' (pie_advance e) with Some r => Some (pie_get e :: r) | None => None end
+      else Some []
+  end.
